@@ -2572,15 +2572,15 @@ class Scene:
             # Calculate alpha derivatives
 
             # Get current aerodynamic state
-            alpha_0, beta_0,_ = airplane_object.get_aerodynamic_state()
+            alpha_0, beta_0,_ = airplane_object.get_aerodynamic_state(v_wind=v_wind)
 
             # Perturb forward in alpha
-            airplane_object.set_aerodynamic_state(alpha=alpha_0+dtheta)
+            airplane_object.set_aerodynamic_state(alpha=alpha_0+dtheta, v_wind=v_wind)
             self.solve_forces(dimensional=False, wind_frame=True, body_frame=False, stab_frame=False)
             FM_dalpha_fwd = self._FM
 
             # Perturb backward in alpha
-            airplane_object.set_aerodynamic_state(alpha=alpha_0-dtheta)
+            airplane_object.set_aerodynamic_state(alpha=alpha_0-dtheta, v_wind=v_wind)
             self.solve_forces(dimensional=False, wind_frame=True, body_frame=False, stab_frame=False)
             FM_dalpha_bwd = self._FM
 
@@ -2589,7 +2589,7 @@ class Scene:
             Cm_a = (FM_dalpha_fwd[aircraft_name]["total"]["Cm_w"]-FM_dalpha_bwd[aircraft_name]["total"]["Cm_w"])/diff
 
             # Reset aerodynamic state
-            self._airplanes[aircraft_name].set_aerodynamic_state(alpha=alpha_0, beta=beta_0)
+            self._airplanes[aircraft_name].set_aerodynamic_state(alpha=alpha_0, beta=beta_0, v_wind=v_wind)
             self._solved = False
 
             # Determine Jacobian
@@ -2604,7 +2604,7 @@ class Scene:
 
             # Update angle of attack
             alpha1 = alpha0 + np.degrees(delta[0])*relax
-            airplane_object.set_aerodynamic_state(alpha=alpha1)
+            airplane_object.set_aerodynamic_state(alpha=alpha1, v_wind=v_wind)
 
             # Update control
             delta_flap1 = delta_flap0 + np.degrees(delta[1])*relax
@@ -2633,11 +2633,11 @@ class Scene:
         # If the user wants, set the state to the new trim state
         set_trim_state = kwargs.get("set_trim_state", True)
         if set_trim_state:
-            airplane_object.set_aerodynamic_state(alpha=alpha1)
+            airplane_object.set_aerodynamic_state(alpha=alpha1, v_wind=v_wind)
             self.set_aircraft_control_state({pitch_control : delta_flap1}, aircraft=aircraft_name)
 
         else: # Return to the original state
-            airplane_object.set_aerodynamic_state(alpha=alpha_original)
+            airplane_object.set_aerodynamic_state(alpha=alpha_original, v_wind=v_wind)
             self.set_aircraft_control_state(controls_original, aircraft=aircraft_name)
 
         # Output results to file
